@@ -168,6 +168,7 @@ type Payload struct {
 	hashed bool
 
 	srcNode int // harness bookkeeping: id of the node whose Broadcast produced it (-1: scripted)
+	atStart bool // harness bookkeeping: broadcast from inside the Start call of a (re)started instance
 
 	// badWitness: the payload is well formed and its consensus data (signature / pre-commit data) fits, but the
 	// application's payload verifier (VerifyPrepareRequest/Response/PreCommit/Commit callback) refuses it, e.g. a bad
